@@ -1,7 +1,11 @@
 #include "life/c09.h"
 namespace c09 {
 void exec_evolution(int shape, int form, unsigned G, Setup& S) {
-  if (shape == EVOLVE) stmt_g(form, G, S, S.pa->Evolve(*S.ph, S.sc));
-  else stmt_g(form, G, S, S.pa->Evolve(S.table));
+  switch (shape) {
+    case EVOLVE: stmt_g(form, G, S, S.pa->Evolve(*S.ph, S.sc)); break;
+    case EVOLVE_R: stmt_g(form, G, S, std::move(*S.pa).Evolve(*S.ph, S.sc)); break;
+    case FASTEVOLVE: stmt_g(form, G, S, S.pa->Evolve(S.table)); break;
+    default: stmt_g(form, G, S, std::move(*S.pa).Evolve(S.table));
+  }
 }
 }
